@@ -36,6 +36,16 @@ Theorem C08_decay_amplitudes_entry : forall pars use_ff na nk no Lm Rm idx sp om
 Proof. exact decay_amplitudes_entry. Qed.
 Print Assumptions C08_decay_amplitudes_entry.
 
+(* util.get_indices_from_identifiers: None selects all operators in order; a list of identifiers selects position by
+   position an index holding that identifier, and all indices are valid (so [idx_ok] holds for what the package passes) *)
+Theorem C08_indices_none : forall all_ids, indices_from_identifiers all_ids None = Some (seq 0 (length all_ids)).
+Proof. exact indices_none. Qed.
+Theorem C08_indices_some : forall all_ids l idx, indices_from_identifiers all_ids (Some l) = Some idx ->
+  length idx = length l /\
+  forall i, (i < length l)%nat -> (sel idx i < length all_ids)%nat /\ nth (sel idx i) all_ids String.EmptyString = nth i l String.EmptyString.
+Proof. exact indices_some. Qed.
+Print Assumptions C08_indices_some.
+
 (* slice_commutes: selecting identifiers = slicing the result for all operators *)
 Theorem C08_slice_commutes : forall na Lm Rm idx spF spS no omega i j k l,
   spectrum_selected spF spS idx -> (sel idx i < na)%nat -> (sel idx j < na)%nat ->
